@@ -170,8 +170,9 @@ def gen_single(rng, t, inp, vanishing=False):
     }
 
 
-def gen_two_hap(rng, t):
-    """Two haplotypes in one map; returns (input scaffolds, pretext, design)."""
+def gen_two_hap(rng, t, unprefixed=False):
+    """Two haplotypes in one map; returns (input scaffolds, pretext, design).
+    unprefixed: also input scaffolds whose names carry no haplotype prefix (expected in the primary assembly)."""
     inp = []
     for h in ("HAP1", "HAP2"):
         scs, _ = gasm.gen_input(rng, t, n_scaff=rng.randint(2, 6), mode="fasta", max_texels=60)
@@ -180,12 +181,28 @@ def gen_two_hap(rng, t):
             s[0] = nm
             s[1] = [["F", nm, r[2], r[3], r[4], []] if r[0] == "F" else r for r in s[1]]
         inp += scs
+    extra_names = []
+    if unprefixed:
+        scs, _ = gasm.gen_input(rng, t, n_scaff=rng.randint(1, 2), mode="fasta", max_texels=20)
+        for k, s in enumerate(scs):
+            nm = rng.choice(["mito", "scaffold", "unloc", "MT"]) + f"_{k + 7}"
+            s[0] = nm
+            s[1] = [["F", nm, r[2], r[3], r[4], []] if r[0] == "F" else r for r in s[1]]
+            extra_names.append(nm)
+        inp += scs
     by_name = {s[0]: s for s in inp}
     pieces, labels = gpv.gen_pieces(rng, inp, t, cut_prob=0.3)
+    if extra_names:
+        labels.add("tag:unprefixed-scaffold-in-haplotype-map")
+        # some of them are absent from the map altogether
+        gone = {n for n in extra_names if rng.random() < 0.5}
+        pieces = [p for p in pieces if p["s"] not in gone]
     big = lambda p: core_has_bases(by_name, p, t) and (p["end"] - p["start"] + 1) > 8 * (1 + int(t))  # noqa: E731
     p1 = [p for p in pieces if p["s"].startswith("HAP1") and big(p)]
     p2 = [p for p in pieces if p["s"].startswith("HAP2") and big(p)]
     small = [p for p in pieces if p not in p1 and p not in p2]
+    group_tags = ["X", "Z", "W", "B1"]
+    rng.shuffle(group_tags)
     rng.shuffle(p1)
     rng.shuffle(p2)
     tagcase = rng.choice([("Hap1", "Hap2"), ("HAP1", "HAP2"), ("hap1", "hap2")])
@@ -201,7 +218,8 @@ def gen_two_hap(rng, t):
         k = rng.randint(1, min(3, len(p1)))
         g1, p1 = p1[:k], p1[k:]
         h2s = []
-        for _ in range(rng.randint(0, 2)):
+        gtag = group_tags.pop() if group_tags and rng.random() < 0.3 else None  # e.g. a sex chromosome present in both haplotypes
+        for _ in range(rng.randint(0, 2) if gtag is None else rng.randint(0, 1)):
             if p2:
                 k2 = rng.randint(1, min(3, len(p2)))
                 g2, p2 = p2[:k2], p2[k2:]
@@ -215,13 +233,16 @@ def gen_two_hap(rng, t):
                 row_tags[0].append("Singleton")
             if hap == 0 and primary and gi == 0:
                 row_tags[0].append("Primary")
+            if gtag:
+                row_tags[0].append(gtag)
+                labels.add("tag:name-tag-in-both-haplotypes")
             for j, pc in enumerate(grp):
                 pc["kind"], pc["expect"] = ("main" if j == 0 or rng.random() < 0.6 else "unloc"), ("hap1", "hap2")[hap]
                 pc["chrom"] = len(design)
-                pc["group"] = gi
+                pc["group"] = gi if gtag is None else None
                 pc["hap"] = hap
-                pc["nametag"] = None
-            design.append({"painted": True, "rows": grp, "target": True, "nametag": None, "row_tags": row_tags, "hap": hap, "group": gi})
+                pc["nametag"] = gtag
+            design.append({"painted": True, "rows": grp, "target": True, "nametag": gtag, "row_tags": row_tags, "hap": hap, "group": gi})
         gi += 1
     if not design:
         return None
@@ -229,6 +250,8 @@ def gen_two_hap(rng, t):
     for pc in p1 + p2 + small:
         hap = 0 if pc["s"].startswith("HAP1") else 1
         pc["kind"], pc["expect"] = "unpainted", ("hap1", "hap2")[hap]
+        if pc["s"] in extra_names:
+            pc["expect"] = "none"
         r = rng.random()
         if r < 0.1:
             pc["kind"], pc["expect"] = "htig", "Haplotig"
